@@ -384,7 +384,8 @@ Inductive vcode : Set := DefInvalid | DefExpandInvalid.
 
 (* DefValidator._validate_def_contents; g = None for a Def tag, Some children
    of the Def-expand group otherwise *)
-(* [fs] = the repaired comparison (C09-F2 fix): both sides sorted() first *)
+(* [fs = true] = the comparison as it is since fix commit cbb8087 (former C09-F2): both
+   sides sorted() first; [fs = false] = the ordered comparison before it (record) *)
 Definition sorted_children (ch : list node) : list node := sort_children (map sort_node ch).
 
 Definition validate_def_contents (fs : bool) (D : dict) (t : tag) (g : option (list node)) : res (list vcode) :=
